@@ -23,6 +23,9 @@ func Run(c *hx.Ctx) {
 	if len(c.Args) >= 5 && c.Args[0] == "upchild" {
 		upChild(c.Args[1:]) // never returns
 	}
+	if len(c.Args) >= 4 && c.Args[0] == "rhchild" {
+		rhChild(c.Args[1:]) // never returns
+	}
 	only := ""
 	if len(c.Args) >= 2 && c.Args[0] == "only" {
 		only = c.Args[1]
@@ -76,6 +79,9 @@ func Run(c *hx.Ctx) {
 		for i := 0; i < c.N(12, 30); i++ {
 			runVL(c, genVL(c, i))
 		}
+	}
+	if only == "" || only == "rh" {
+		runReconfigure(c)
 	}
 	if only == "" || only == "up" {
 		// boundary replayed on every run: inherited bytes that fill the new read buffer exactly (minimised past failure)
